@@ -6,6 +6,7 @@
  */
 #include "common.h"
 #include "model.h"
+#include <sys/mman.h>
 #include "TinyJAMBU.h"
 
 #define CAP 8160u
@@ -240,6 +241,33 @@ int main(int argc, char **argv)
             size_t ol = rnd(&r, 6) == 0 ? rnd(&r, 2000) : rnd(&r, 130);
             unsigned long cnt = (rnd(&r, 12) == 0 && ol <= 200) ? rnd(&r, 200) : rnd(&r, 8);
             if (mine(&a, idx)) pbkdf2_case(&a, idx, ol, rnd(&r, 3) ? rnd(&r, 260) : PWL[rnd(&r, 7)], rnd(&r, 80), cnt);
+        }
+    } else if (!strcmp(a.mode, "pbkdf2huge")) {
+        /* thorough: ONE call producing 2^24 + 2 blocks (512 MiB, about a minute): all bytes of the big-endian block index
+         * are exercised; sampled blocks are judged against the model (count = 1: T_i = HMAC(P, S || INT(i))) */
+        if (mine(&a, idx)) {
+            static const unsigned long BI[] = {1, 2, 255, 256, 257, 65535, 65536, 65537, 0xFFFFFFul, 0x1000000ul, 0x1000001ul, 0x1000002ul, 0x800000ul, 0x123456ul};
+            size_t nblk = ((size_t)1 << 24) + 2, outlen = nblk * 32 - 5, k;
+            uint8_t *out = (uint8_t *)mmap(NULL, outlen + 4096, PROT_READ | PROT_WRITE, MAP_PRIVATE | MAP_ANONYMOUS | MAP_NORESERVE, -1, 0);
+            uint8_t pw[11], sb[20 + 4], e[32];
+            rng_t r = rng_for(a.seed, 0x9BFF, 0);
+            if (out == MAP_FAILED) { perror("mmap"); return 2; }
+            fill_random(&r, pw, sizeof pw); fill_random(&r, sb, 20);
+            set_case("{\"h\":\"kdf\",\"mode\":\"pbkdf2-huge\",\"i\":%ld,\"outlen\":%zu,\"pwlen\":11,\"saltlen\":20,\"count\":1}", idx, outlen);
+            ++n_eval; ++n_pb; n_pb_blocks += nblk; cls_add(mix64(0x9BFF, 1)); emit_sample();
+            memset(out + outlen, 0xA5, 64);
+            tinyjambu_pbkdf2(out, outlen, pw, sizeof pw, sb, 20, 1);
+            for (k = 0; k < 64; ++k) if (out[outlen + k] != 0xA5) { emit_viol("wrote-outside:tinyjambu_pbkdf2", "bytes after the %zu-byte output modified", outlen); break; }
+            for (k = 0; k < sizeof BI / sizeof BI[0]; ++k) {
+                size_t off = (size_t)(BI[k] - 1) * 32, n = off + 32 <= outlen ? 32 : outlen - off;
+                sb[20] = (uint8_t)(BI[k] >> 24); sb[21] = (uint8_t)(BI[k] >> 16); sb[22] = (uint8_t)(BI[k] >> 8); sb[23] = (uint8_t)BI[k];
+                m_hmac(e, pw, sizeof pw, sb, 24);
+                n_bytes += n;
+                if (memcmp(out + off, e, n)) { emit_viol("pbkdf2-spec-mismatch:block-index-above-2^16", "block %lu (offset %zu) of a %zu-byte output differs from HMAC(P, S || INT(%lu))", BI[k], off, outlen, BI[k]); break; }
+            }
+            /* no block equals block 1 or 2 again (index bytes dropped), sampled every 4099 blocks */
+            for (k = 4099; k < nblk - 1; k += 4099) if (!memcmp(out + k * 32, out, 32) || !memcmp(out + k * 32, out + 32, 32)) { emit_viol("pbkdf2-block-repeats", "block %zu repeats block 1 or 2", k + 1); break; }
+            munmap(out, outlen + 4096);
         }
     } else { fprintf(stderr, "bad mode\n"); return 2; }
     emit_stat("evaluations", n_eval); emit_stat("hkdf_oneshot_calls", n_oneshot); emit_stat("hkdf_oneshot_refusals_checked", n_refused);
